@@ -38,7 +38,7 @@ def _func_crystal(
 
     res = 0.0
     for (hkl_vals, pos_vals, en) in refl_data:
-        wl = 12.3984 / en
+        wl = 12.39842 / en
         [_, DELTA, NU, _, _, _] = get_rotation_matrices(pos_vals)
         q_pos = (NU @ DELTA - I) @ np.array([[0], [2 * pi / wl], [0]])
         q_hkl = trial_cr.B @ hkl_vals
@@ -55,7 +55,7 @@ def _func_orient(
 
     res = 0.0
     for (hkl_vals, pos_vals, en) in refl_data:
-        wl = 12.3984 / en
+        wl = 12.39842 / en
         [MU, DELTA, NU, ETA, CHI, PHI] = get_rotation_matrices(pos_vals)
         q_del = (NU @ DELTA - I) @ np.array([[0], [2 * pi / wl], [0]])
         q_vals = inv(PHI) @ inv(CHI) @ inv(ETA) @ inv(MU) @ q_del
